@@ -19,7 +19,7 @@ import c06
 import hirq
 import loops as LP
 from facts import short
-from mir import body_of, callee_path, op_const, op_place
+from mir import body_of, callee_path, op_const, op_place, strip_generics
 from packs_common import IO_TRAITS
 from panicfree import fn_short
 from report import site_of
@@ -98,6 +98,7 @@ def run(fx, chk, tier):
     chk.rule("R1", "every child-type dispatch in a box-walk loop has a default path that only advances by the child's size")
     chk.rule("R2", "every decoder repositions to start + size before returning success (C04-S3)")
     chk.rule("R3", "dispatch arms write distinct accumulators, do not read each other's, and nothing after the dispatch depends on the arm taken")
+    chk.rule("R5", "an absolute advance past a child box is based on the position taken after its header (the decoded size of a 64-bit header excludes the 8 largesize bytes); never pre-header position + size")
     chk.rule("R4", "64-bit header: the constant subtracted from largesize equals the extra header bytes read and equals box_start's constant; position - 8 is not used as an absolute offset")
     eng, ents = c06.build_engine(fx, chk)
     ndisp = 0
@@ -280,6 +281,135 @@ def run(fx, chk, tier):
                     if "stream_position" in src or "stream_position" in txt or src == "val":
                         # where does the difference go? a push into a collection / struct field = absolute use
                         chk.bad("R4", fn_short(fid) + "|abs-offset", "`position - 8` is kept as the absolute offset of the box just entered: with a 64-bit size header the box starts 16 bytes before the position, so the stored offset is 8 too large", site_of(fn, s.get("line")))
+    # ---------------- R5: the base of every advance past a child
+    import rescan
+    import c01_tables
+    from callgraph import callgraph
+    from packs_common import io_fallible_set
+    iof = io_fallible_set(fx, callgraph(fx))
+    nadv = 0
+    for fid in sorted(eng.clo):
+        fn = fx.fns[fid]
+        if fn.get("derived") or body_of(fn) is None:
+            continue
+        body, ls, walks = rescan.boxwalk_loops(fx, fid)
+        it = eng.res.interps.get(fid)
+        if not walks or it is None:
+            continue
+        inv = {v: k for k, v in it.site_syms.items()}
+        for L in walks:
+            own = L.own_blocks(ls)
+            hs = [b for b, t in LP.calls_in(body, own) if rescan.is_header_read(t)]
+            if len(hs) != 1:
+                continue
+            H = hs[0]
+            seen = {}
+            for b, t in LP.calls_in(body, L.blocks):
+                p = callee_path(t["callee"]) or ""
+                decl = strip_generics(t["callee"].get("path") or "")
+                if not (p.endswith("::skip_bytes_to") or decl == "std::io::Seek::seek") or not body.dominates(H, b):
+                    continue
+                st = it.out_states.get(b)
+                if st is None:
+                    continue
+                arg = t["args"][1]
+                sid = it.read_op(st, arg, (b, "t"))[0]
+                if decl == "std::io::Seek::seek":
+                    pl = op_place(arg)
+                    sd = body.single_def(pl["l"]) if pl is not None and not pl["p"] else None
+                    sid = st.cells.get((pl["l"], ".0")) if sd and sd[2] == "assign" and sd[3]["k"] == "agg" and sd[3].get("variant") == "Start" else None
+                lin = c01_tables.Lin(it)
+                form = lin.sym(st, sid) if sid is not None else None
+                if not form:
+                    continue
+                # which variables are the size decoded by this iteration's header read / captured positions?
+                svars, pvars, other = [], [], []
+                for v, c in form.items():
+                    if v == ():
+                        continue
+                    site = inv.get(v[1]) if isinstance(v, tuple) and v and v[0] == "sym" else None
+                    if site and site[0] == "call" and site[1] == (H, "t") and site[2][-1:] == (".size",):
+                        svars.append((v, c))
+                    elif site and site[0] == "call" and site[2] == ("as Ok", ".0") and strip_generics(body.term(site[1][0])["callee"].get("path") or "") == "std::io::Seek::stream_position":
+                        pvars.append((v, c, site[1][0]))
+                    else:
+                        other.append(v)
+                if not svars:
+                    continue          # not an advance by the child's size (e.g. jump to the parent's end)
+                nadv += 1
+                base = "%s|advance|%s" % (fn_short(fid), body.op_str(arg))
+                k = seen.get(base, 0)
+                seen[base] = k + 1
+                key = base if not k else "%s#%d" % (base, k)
+                site_ = site_of(fn, t.get("line"))
+                const = form.get((), 0)
+                if other or len(pvars) != 1 or pvars[0][1] != 1 or svars[0][1] != 1:
+                    chk.bad("R5", key, "advance past a child is not `position + size` in a recognisable form (%s)" % c01_tables.l_str(form), site_)
+                    continue
+                cb = pvars[0][2]
+                if body.dominates(H, cb) and const == -8:
+                    chk.ok("R5", key, "position taken after the header + size - 8", site_)
+                elif body.dominates(H, cb):
+                    chk.bad("R5", key, "advance = position after the header + size %+d; the decoded size counts 8 header bytes" % const, site_)
+                else:
+                    chk.bad("R5", key, "advance = (position taken BEFORE the child's header) + decoded size: for a child with a 64-bit size header BoxHeader::read returns largesize - 8, "
+                            "so this lands 8 bytes before the child's end and the next header is read from its payload (use skip_box / the position after the header)", site_)
+    chk.analysed["absolute_advances_by_child_size"] = nadv
+    # the relative helper: skip_box(reader, s) must be called with the stream still at the end of the header just read,
+    # and its own target must be (position - 8) + size
+    sb = [f for f in fx.fns.values() if f["id"].endswith("::skip_box") and f["kind"] == "Fn"]
+    nskip = 0
+    if chk.anchor("R5", "skip_box", sb):
+        sbody = body_of(sb[0])
+        it0 = eng.res.interps.get(sb[0]["id"])
+        good = False
+        why = "no absolute reposition found"
+        if it0 is not None:
+            bsum = None
+            for b, t in sbody.calls():
+                if (callee_path(t["callee"]) or "").endswith("::skip_bytes_to"):
+                    st = it0.out_states.get(b)
+                    sid = it0.read_op(st, t["args"][1], (b, "t"))[0] if st is not None else None
+                    lin = c01_tables.Lin(it0)
+                    form = lin.sym(st, sid) if sid is not None else None
+                    why = "target = %s" % c01_tables.l_str(form)
+                    if form:
+                        inv0 = {v: k for k, v in it0.site_syms.items()}
+                        params = [v for v in form if isinstance(v, tuple) and v and v[0] == "param" and form[v] == 1]
+                        calls_ = [v for v in form if isinstance(v, tuple) and v and v[0] == "sym" and form[v] == 1 and (inv0.get(v[1]) or ("",))[0] == "call"]
+                        rest = [v for v in form if v != () and v not in params and v not in calls_]
+                        if len(params) == 1 and len(calls_) == 1 and not rest:
+                            cpath = callee_path(sbody.term(inv0[calls_[0][1]][1][0])["callee"]) or ""
+                            if cpath.endswith("::box_start") and form.get((), 0) == 0:
+                                good = True        # box_start's own constant is R4's subject
+                            elif strip_generics(sbody.term(inv0[calls_[0][1]][1][0])["callee"].get("path") or "") == "std::io::Seek::stream_position" and form.get((), 0) == -8:
+                                good = True
+        chk.require(good, "R5", "skip_box|target", "skip_box repositions to box_start() + size", "skip_box does not reposition to (position - 8) + size: %s" % why, site_of(sb[0]))
+        for fid in sorted(eng.clo):
+            fn = fx.fns[fid]
+            if fn.get("derived") or body_of(fn) is None:
+                continue
+            body, ls, walks = rescan.boxwalk_loops(fx, fid)
+            for L in walks:
+                own = L.own_blocks(ls)
+                hs = [b for b, t in LP.calls_in(body, own) if rescan.is_header_read(t)]
+                if len(hs) != 1:
+                    continue
+                H = hs[0]
+                seen = {}
+                for b, t in LP.calls_in(body, L.blocks):
+                    if callee_path(t["callee"]) != sb[0]["id"] or not body.dominates(H, b):
+                        continue
+                    nskip += 1
+                    base = "%s|skip_box|%s" % (fn_short(fid), body.op_str(t["args"][1]))
+                    k = seen.get(base, 0)
+                    seen[base] = k + 1
+                    key = base if not k else "%s#%d" % (base, k)
+                    between = body.reachable_from(body.term(H)["t"], avoid=[b, L.head]) if body.term(H).get("t") is not None else set()
+                    between = {x for x in between if body.can_reach(x, b, avoid=[L.head])}
+                    moved = [x for x in between if x != b and body.term(x)["k"] == "call" and rescan.stream_call(fx, body.term(x), iof)]
+                    chk.require(not moved, "R5", key, "called with the stream at the end of the header just read", "the stream is moved between the header read and skip_box, which measures from the current position", site_of(fn, t.get("line")))
+        chk.floor("R5", "skip_box calls in box-walk loops", nskip, 20)
     return chk.finish(
         "other",
         "%d child-type dispatches, %d decoders and the header-form constants are checked structurally on HIR/MIR; the rules are necessary conditions of layout independence "
